@@ -1,5 +1,6 @@
 import Heph.Model.Pickle
 import Heph.Generated.PickleClasses
+import Heph.Proofs.PickleStable
 /-!
 # C13 — saved programs replay faithfully (partial: the abstract pickle machine)
 
@@ -11,34 +12,12 @@ equal element-wise, rebuilt graphs isomorphic) and judges the property on the re
 namespace Heph.Props.C13
 open Heph.Pickle
 
-/-! ## isomorphism of rooted heaps -/
+/-! ## isomorphism of rooted heaps
 
-/-- two value slots correspond under the address map `f` -/
-def ValRel (f : Nat → Option Nat) : Val → Val → Prop
-  | .ref a, .ref a' => f a = some a'
-  | .ref _, _ => False
-  | _, .ref _ => False
-  | x, y => x = y
-
-/-- pointwise relation of two lists of equal length -/
-inductive AllRel {α β : Type} (R : α → β → Prop) : List α → List β → Prop
-  | nil : AllRel R [] []
-  | cons {a b as bs} : R a b → AllRel R as bs → AllRel R (a :: as) (b :: bs)
-
-/-- same kind (and string content, and built/bare), children corresponding IN ORDER -/
-def ObjRel (f : Nat → Option Nat) (o o' : Obj) : Prop :=
-  o.tag = o'.tag ∧ AllRel (ValRel f) o.children o'.children
-
-/-- `f` is an isomorphism from the part of `h` reachable from `r` onto the part of `h'` reachable from `r'`:
-injective, relates the roots, and every related pair of addresses holds objects of the same kind whose
-children are related in order (so the domain is closed under reachability; sharing and cycles are
-preserved because `f` is a function and injective). -/
-structure IsoW (h : Heap) (r : Val) (h' : Heap) (r' : Val) (f : Nat → Option Nat) : Prop where
-  inj : ∀ a b c, f a = some c → f b = some c → a = b
-  root : ValRel f r r'
-  step : ∀ a a', f a = some a' → ∃ o o', h[a]? = some o ∧ h'[a']? = some o' ∧ ObjRel f o o'
-
-def Iso (h : Heap) (r : Val) (h' : Heap) (r' : Val) : Prop := ∃ f, IsoW h r h' r' f
+`Iso h r h' r'` (Heph/Proofs/PickleIso.lean): there is an injective address map `f` relating the roots such
+that every related pair of addresses holds objects of the same kind (`ObjRel`: same constructor, equal strings,
+same built/bare status) whose children are related IN ORDER.  Its domain is therefore closed under
+reachability; sharing and cycles are preserved because `f` is a function and injective. -/
 
 /-- the pickler can traverse the graph: no dangling reference, no empty tuple object, no cycle through
 tuples / frozensets only -/
@@ -69,15 +48,6 @@ def keys_ready_unconditional : Prop :=
 
 /-! ## observation congruence -/
 
-theorem valRel_imm {f : Nat → Option Nat} {x y : Val} (hx : ∀ a, x ≠ .ref a) (hr : ValRel f x y) : x = y := by
-  cases x <;> cases y <;> simp_all [ValRel]
-
-theorem AllRel.map_eq {α β γ : Type} {R : α → β → Prop} {g : α → γ} {g' : β → γ} {xs : List α} {ys : List β}
-    (hr : AllRel R xs ys) (hg : ∀ x y, R x y → g x = g' y) : xs.map g = ys.map g' := by
-  induction hr with
-  | nil => rfl
-  | cons hxy _ ihl => simp only [List.map_cons, hg _ _ hxy, ihl]
-
 theorem unfold_congr {h h' : Heap} {f : Nat → Option Nat}
     (step : ∀ a a', f a = some a' → ∃ o o', h[a]? = some o ∧ h'[a']? = some o' ∧ ObjRel f o o') :
     ∀ (n : Nat) (v v' : Val), ValRel f v v' → unfold h n v = unfold h' n v' := by
@@ -92,10 +62,10 @@ theorem unfold_congr {h h' : Heap} {f : Nat → Option Nat}
     | ref a =>
       cases v' with
       | ref a' =>
-        obtain ⟨o, o', ho, ho', htag, hch⟩ := step a a' hv
-        simp only [unfold, ho, ho', htag]
+        obtain ⟨o, o', ho, ho', hrel⟩ := step a a' hv
+        simp only [unfold, ho, ho', hrel.tag_eq]
         congr 1
-        exact hch.map_eq ih
+        exact hrel.children_rel.map_eq ih
       | _ => exact False.elim hv
     | _ => cases v' <;> simp [ValRel] at hv <;> simp [unfold, hv]
 
@@ -108,6 +78,56 @@ theorem observation_congruence {α : Type} (obs : (Nat → Tree) → α) {h h' :
     funext n
     exact unfold_congr w.step n r r' w.root
   rw [this]
+
+/-! ## dump is invariant under isomorphism -/
+
+/-- **dump_stable, proved part**: isomorphic rooted heaps with equally many cells have the same op-code stream
+(by a simulation of two runs of the pickler: related states emit the same op-codes and give corresponding
+addresses the same memo index; `Heph/Proofs/PickleStable.lean`, every fuel).  Missing for the full `dump_stable`:
+independence of the answer from the number of unreachable cells (the fuel and the size of the memo table are
+computed from the heap size).  Exported heaps and loaded heaps contain reachable cells only, so the sizes
+agree whenever the heaps are isomorphic. -/
+theorem dump_stable_partial {h h' : Heap} {r r' : Val} (iso : Iso h r h' r') (hsz : h.size = h'.size) :
+    dump h r = dump h' r' :=
+  dump_eq_of_iso iso hsz
+
+/-- dumping a loaded program again gives the same op-codes, for every heap on which the round trip yields an
+isomorphic heap of the same size (checked by `isoCheck` on every explored program) -/
+theorem redump_stable {h h' : Heap} {r r' : Val} {ops : List Op} (_hd : dump h r = some ops)
+    (_hl : load ops = some (h', r')) (iso : Iso h r h' r') (hsz : h.size = h'.size) :
+    dump h' r' = some ops := by
+  rw [← dump_stable_partial iso hsz]
+  exact _hd
+
+/-- the hypotheses of `dump_stable_partial` are satisfiable by two differently numbered heaps with sharing and a
+cycle (a list containing a shared string and itself) -/
+def hA : Heap := #[.list [.ref 1, .ref 1, .ref 0], .str "a"]
+def hB : Heap := #[.str "a", .list [.ref 0, .ref 0, .ref 1]]
+def fAB : Nat → Option Nat
+  | 0 => some 1
+  | 1 => some 0
+  | _ => none
+
+example : Iso hA (.ref 0) hB (.ref 1) ∧ hA.size = hB.size := by
+  refine ⟨⟨fAB, ⟨?_, rfl, ?_⟩⟩, rfl⟩
+  · intro a b c ha hb
+    match a, b with
+    | 0, 0 => rfl
+    | 1, 1 => rfl
+    | 0, 1 => simp [fAB] at ha hb; omega
+    | 1, 0 => simp [fAB] at ha hb; omega
+    | 0, n + 2 => simp [fAB] at hb
+    | 1, n + 2 => simp [fAB] at hb
+    | n + 2, _ => simp [fAB] at ha
+  · intro a a' ha
+    match a with
+    | 0 =>
+      simp [fAB] at ha; subst ha
+      exact ⟨_, _, rfl, rfl, .cons rfl (.cons rfl (.cons rfl .nil))⟩
+    | 1 =>
+      simp [fAB] at ha; subst ha
+      exact ⟨_, _, rfl, rfl, rfl⟩
+    | n + 2 => simp [fAB] at ha
 
 /-! ## concrete heaps: non-vacuity and the counterexample -/
 
